@@ -1,7 +1,8 @@
 // Differential harness: runs the real free5gc/nas code in-process on line-protocol ops.
-//   harness gen <domain> [-seed N] [-n N] [-tier quick|thorough]   -> op lines on stdout
-//   harness run                                                   -> reads op lines, prints outcome per line
-//   harness oracle <Cxx>                                          -> reads op lines, prints pass / FAIL <detail> per line
+//
+//	harness gen <domain> [-seed N] [-n N] [-tier quick|thorough]   -> op lines on stdout
+//	harness run                                                   -> reads op lines, prints outcome per line
+//	harness oracle <Cxx>                                          -> reads op lines, prints pass / FAIL <detail> per line
 package main
 
 import (
@@ -11,6 +12,7 @@ import (
 	"io"
 	"os"
 	"strings"
+	"time"
 
 	"github.com/free5gc/nas/logger"
 )
@@ -55,12 +57,15 @@ func main() {
 		f(g, w)
 		w.Flush()
 	case "run":
+		// every op runs under a watchdog: a call that does not return (a decoder that stops making progress, a helper
+		// that loops forever) is reported as `hang` for that line and the process stops there, because the stuck goroutine
+		// cannot be killed; the runner sees the short stream
 		runLines(func(op string, args []string) string {
 			f, ok := ops[op]
 			if !ok {
 				return "bad-op"
 			}
-			return safely(func() string { return f(args) })
+			return withTimeoutD(limitFor(op), func() string { return f(args) })
 		})
 	case "conc":
 		fs := flag.NewFlagSet("conc", flag.ExitOnError)
@@ -77,11 +82,24 @@ func main() {
 			os.Exit(2)
 		}
 		runLines(func(op string, args []string) string {
-			return safely(func() string { return f(op, args) })
+			r := withTimeoutD(limitFor(op), func() string { return f(op, args) })
+			if r == "hang" {
+				return "FAIL hang: the call did not return within the watchdog limit"
+			}
+			return r
 		})
 	default:
 		os.Exit(2)
 	}
+}
+
+// limitFor: decoders, encoders, helpers answer in milliseconds; only the long counter walks and cipher sweeps get more
+func limitFor(op string) time.Duration {
+	switch op {
+	case "cnt", "cntwalk", "ks", "nea", "nia", "snea", "snia":
+		return hangLimitOuter
+	}
+	return hangLimit
 }
 
 func safely(f func() string) (out string) {
